@@ -66,6 +66,14 @@ func (k *Keys) GetCursorPos() (x, y int) {
 			return disable()
 		}
 
+		// Keys typed while we were waiting for the answer might
+		// have been read along with it: they are user input.
+		if _, remain := k.extractCursorPos(cursor); len(remain) > 0 {
+			k.mutex.RLock()
+			k.buf = append(k.buf, remain...)
+			k.mutex.RUnlock()
+		}
+
 		break
 	}
 
